@@ -293,6 +293,11 @@ fn core_word_max(xs: &mut State) -> Xresult {
 }
 
 fn core_word_rem(xs: &mut State) -> Xresult {
+    if let Ok(Cell::Int(0)) = xs.top_data().map(|b| b.value().clone()) {
+        let _b = xs.pop_data()?;
+        xs.pop_data()?.to_xint()?;
+        return Err(Xerr::DivisionByZero);
+    }
     arithmetic_ops_real(xs, Xint::wrapping_rem, std::ops::Rem::<f64>::rem)
 }
 
